@@ -22,6 +22,12 @@ for pid in sorted(config.PROPS):
         'technique': t['technique'],
     }
     checks.append(c)
+engines = [dict(e) for e in mt.ENGINES]
+for e in engines:
+    if e['name'] == 'replay':
+        e['serves_properties'] = sorted(config.PROPS)
+    else:
+        e['serves_properties'] = sorted(c['property_id'] for c in checks if c['engine'] == e['name'] or (e['name'] == 'verus-contracts' and config.PROPS[c['property_id']].get('units')) or (e['name'] == 'kani-harnesses' and config.PROPS[c['property_id']].get('kani')))
 na = [{'property_id': p, 'reason': r} for p, r in sorted(mt.NOT_APPLICABLE.items()) if p not in config.PROPS]
 m = {
     'version': 1,
@@ -33,7 +39,7 @@ m = {
         'source_commits': [],
         'add_only': True,
     },
-    'engines': mt.ENGINES,
+    'engines': engines,
     'checks': checks,
     'not_applicable': na,
     'notes': mt.NOTES,
